@@ -18,6 +18,31 @@ from . import sanbuild
 from .common import NCPU, scratch
 
 
+FSIZE_LIMIT = 48 * 1024 * 1024
+
+
+def _limits():
+    import resource
+    resource.setrlimit(resource.RLIMIT_FSIZE, (FSIZE_LIMIT, FSIZE_LIMIT))
+    resource.setrlimit(resource.RLIMIT_CORE, (0, 0))
+
+
+def _read_ends(path, n):
+    """first and last n bytes of a file, as text"""
+    try:
+        size = os.path.getsize(path)
+        with open(path, "rb") as f:
+            if size <= 2 * n:
+                data = f.read()
+            else:
+                head = f.read(n)
+                f.seek(size - n)
+                data = head + b"\n...\n" + f.read(n)
+        return data.decode("latin-1")
+    except OSError:
+        return ""
+
+
 def _run_one(args):
     (bdir, benv, base, job) = args
     d = tempfile.mkdtemp(prefix="j-", dir=base)
@@ -44,29 +69,38 @@ def _run_one(args):
         cmd = [os.path.join(bdir, job["cmd"][0])] + list(job["cmd"][1:])
         res = {"rc": None, "sig": None, "timeout": False, "err": "", "out": "", "san": None, "files": {},
                "trace": None}
-        p = subprocess.Popen(cmd, cwd=d, env=env, stdin=subprocess.DEVNULL, stdout=subprocess.PIPE,
-                             stderr=subprocess.PIPE, start_new_session=True)
+        # stdout / stderr go to files (a runaway loop must not fill the harness' memory); the size of every
+        # file the process writes is capped, hitting the cap (SIGXFSZ) is classified like a timeout
+        fo = open(os.path.join(d, ".stdout"), "wb")
+        fe = open(os.path.join(d, ".stderr"), "wb")
+        p = subprocess.Popen(cmd, cwd=d, env=env, stdin=subprocess.DEVNULL, stdout=fo, stderr=fe,
+                             start_new_session=True, preexec_fn=_limits)
         try:
-            out, err = p.communicate(timeout=job.get("timeout", 10))
+            p.wait(timeout=job.get("timeout", 10))
         except subprocess.TimeoutExpired:
             try:
                 os.killpg(p.pid, signal.SIGKILL)
             except OSError:
                 pass
             try:
-                out, err = p.communicate(timeout=5)
+                p.wait(timeout=5)
             except Exception:
-                out, err = b"", b""
+                pass
             res["timeout"] = True
+        fo.close()
+        fe.close()
         rc = p.returncode
+        if rc is not None and -rc == signal.SIGXFSZ:
+            res["timeout"] = True
+            res["runaway"] = True
         if not res["timeout"]:
             res["rc"] = rc
             if rc is not None and rc < 0:
                 res["sig"] = -rc
-        err = (err or b"").decode("latin-1")
-        out = (out or b"").decode("latin-1")
-        res["san"] = None if res["timeout"] else sanbuild.sanitizer_report(rc, err)
         keep = job.get("keep", 1500)
+        err = _read_ends(os.path.join(d, ".stderr"), 6000)
+        out = _read_ends(os.path.join(d, ".stdout"), keep)
+        res["san"] = None if res["timeout"] else sanbuild.sanitizer_report(rc, err)
         res["err"] = err[:keep] if res["san"] else err[-keep:]
         res["out"] = out[-keep:]
         for w in job.get("want", ()):
@@ -74,7 +108,7 @@ def _run_one(args):
             if os.path.exists(path):
                 with open(path, "rb") as f:
                     res["files"][w] = f.read()
-        if tr and os.path.exists(tr):
+        if tr and os.path.exists(tr) and os.path.getsize(tr) < 4000000:
             ev = []
             with open(tr, "rb") as f:
                 for line in f:
